@@ -576,3 +576,145 @@ class td_to_us:
             return delta.us
 
     cases = {"duration": dur, "timedelta": td}
+
+
+# ---- class restriction -----------------------------------------------------------------------------------
+# The contracts above describe Duration's own methods on objects whose total_seconds()/invert are the ones they
+# were verified with.  AbsoluteDuration overrides total_seconds() and invert, so a call on such an object must not
+# be served by these contracts (it is served by the AbsoluteDuration cases below, or is a "needs contract" error).
+def _native_total(self):
+    if not isinstance(self, Obj):
+        return False
+    for c in self.cls.__mro__:
+        if "total_seconds" in c.__dict__:
+            return c is _dt.timedelta
+    return False
+
+
+def _restrict_to_native_total():
+    from pyvc.contract import REGISTRY
+
+    keep_generic = {"pendulum.duration.Duration.__new__", "pendulum.duration.Duration.hours", "pendulum.duration.Duration.minutes",
+                    "pendulum.duration.Duration.remaining_seconds"}
+    for qn, entry in REGISTRY.items():
+        if not qn.startswith("pendulum.duration.Duration.") or qn in keep_generic:
+            continue
+        for case in entry.cases:
+            inner = case._get("applies")
+
+            def applies(_inner=inner, **a):
+                return _native_total(a.get("self")) and (True if _inner is None else _inner(**a))
+
+            # install on the case namespace (a class): staticmethod so that it is not bound
+            setattr(case.ns, "applies", staticmethod(applies))
+
+
+_restrict_to_native_total()
+
+
+# ========================================================================================== AbsoluteDuration (C20, C05)
+def abs_fields(F, cls, T, years, months, hint="abs"):
+    """shadow fields of AbsoluteDuration.__new__ for native value T (microseconds), relationally"""
+    A = absv(T)
+    f = {k: F.int(f"{hint}{k}") for k in ("_microseconds", "_seconds", "_wd_days", "_weeks", "_remaining_days")}
+    o = Obj(cls, us=T, _total=sym.truediv(T, M), _microseconds=f["_microseconds"], _seconds=f["_seconds"],
+            _days=absv(sym.add(f["_wd_days"], sym.add(sym.mul(years, 365), sym.mul(months, 30)))),
+            _weeks=f["_weeks"], _remaining_days=f["_remaining_days"], _months=absv(months), _years=absv(years))
+    rel = abs_rel(o, f["_wd_days"])
+    return o, rel, f["_wd_days"]
+
+
+def abs_rel(o, wd):
+    A = absv(o.us)
+    return And(ge(o._microseconds, 0), lt(o._microseconds, M), ge(o._seconds, 0), lt(o._seconds, D), ge(wd, 0),
+               eq(sym.add(sym.add(sym.mul(wd, DUS), sym.mul(o._seconds, M)), o._microseconds), A),
+               ge(o._remaining_days, 0), lt(o._remaining_days, 7), eq(sym.add(sym.mul(o._weeks, 7), o._remaining_days), wd))
+
+
+@contract("pendulum.duration.AbsoluteDuration.__new__", props=["C20", "C05"])
+class AbsoluteDuration_new:
+    def applies(cls, **a):
+        return all(sym.is_intlike(a[n]) for n in _NUM)
+
+    def args(F):
+        a = {n: F.int(n) for n in _NUM + ("years", "months")}
+        a["cls"] = AbsoluteDuration
+        return a
+
+    def requires(cls, **a):
+        return [("years_months_are_ints", sym.is_intlike(a["years"]) and sym.is_intlike(a["months"]))]
+
+    @staticmethod
+    def _T(a):
+        scale = dict(days=DUS, seconds=M, microseconds=1, milliseconds=1000, minutes=60 * M, hours=3600 * M, weeks=7 * DUS)
+        tot = 0
+        for n, sc in scale.items():
+            tot = sym.add(tot, sym.mul(a[n], sc))
+        return tot
+
+    raises = [(OverflowError, "native_range", lambda cls, **a: Not(stdlib.td_in_range(AbsoluteDuration_new._T(a))))]
+
+    def result(F, cls, **a):
+        o, _, _ = abs_fields(F, cls, AbsoluteDuration_new._T(a), a["years"], a["months"])
+        return o
+
+    def ensures(result, cls, **a):
+        T = AbsoluteDuration_new._T(a)
+        A = absv(T)
+        # the magnitude is what the object reports: total_seconds() == |T| / 10^6 and the fields decompose |T|
+        wd = sym.add(sym.mul(result._weeks, 7), result._remaining_days)
+        return [("class", result.cls is cls), ("signed_total_kept", eq(sym.mul(result._total, M), sym.toreal(T))),
+                ("magnitude_decomposition", And(ge(result._microseconds, 0), lt(result._microseconds, M), ge(result._seconds, 0), lt(result._seconds, D),
+                                                ge(result._remaining_days, 0), lt(result._remaining_days, 7), ge(result._weeks, 0),
+                                                eq(sym.add(sym.add(sym.mul(wd, DUS), sym.mul(result._seconds, M)), result._microseconds), A))),
+                ("years_months_magnitude", And(eq(result._years, absv(a["years"])), eq(result._months, absv(a["months"]))))]
+
+    def assume(F, result, cls, **a):
+        return AbsoluteDuration_new.ensures(result, cls, **a)
+
+
+transparent("pendulum.duration.AbsoluteDuration.total_seconds")
+
+
+@contract("pendulum.duration.AbsoluteDuration.invert", props=["C20", "C18"])
+class abs_invert:
+    def args(F):
+        o, rel, _ = abs_fields(F, AbsoluteDuration, F.int("T"), F.int("y"), F.int("mo"), hint="self")
+        return dict(self=o), [rel]
+
+    def value(self):
+        return lt(self._total, 0)
+
+
+def _abs_self(F):
+    o, rel, _ = abs_fields(F, AbsoluteDuration, F.int("T"), 0, 0, hint="self")
+    return dict(self=o), [rel, stdlib.td_in_range(o.us)]
+
+
+def _add_abs_case(qualname, unit_us, kind):
+    """extra case of an inherited Duration method for AbsoluteDuration receivers (magnitude semantics)"""
+    from pyvc.contract import REGISTRY, Case
+
+    entry = REGISTRY[qualname]
+
+    class on_absolute:
+        applies = staticmethod(lambda self: isinstance(self, Obj) and issubclass(self.cls, AbsoluteDuration))
+        args = _abs_self
+
+        if kind == "total":
+            def value(self):
+                return sym.truediv(absv(self.us), unit_us)
+        else:
+            def result(F, self):
+                return F.int("in_abs")
+
+            def ensures(result, self):
+                return [("truncated_magnitude", trunc_rel(absv(self.us), unit_us, result))]
+
+    entry.cases.append(Case(qualname, "absolute", on_absolute, None))
+
+
+for _n, _u in (("minutes", 60 * M), ("hours", 3600 * M), ("days", DUS), ("weeks", 7 * DUS)):
+    _add_abs_case(f"pendulum.duration.Duration.total_{_n}", _u, "total")
+    _add_abs_case(f"pendulum.duration.Duration.in_{_n}", _u, "in")
+_add_abs_case("pendulum.duration.Duration.in_seconds", M, "in")
